@@ -191,3 +191,32 @@ Section LiftRev.
     f_equal. apply ws2d_rev_list. apply P.
   Qed.
 End LiftRev.
+
+(** ** the offset law through the (non-robust) GCV selection: the scan over the lambda grid sees the same scores *)
+From HDC Require Import Model.Gcv.
+
+Section LiftGcv.
+  Variable K : gconsts (F := R).
+  Variables (y wt : list R) (c : R).
+  Hypothesis Hl : length wt = length y.
+  Hypothesis Hn : (4 <= length y)%nat.
+  Hypothesis Wn : forall i, (0 <= i < Z.of_nat (length y))%Z -> 0 <= Wk wt i.
+  Hypothesis W2 : exists p q, (0 <= p < q)%Z /\ (q < Z.of_nat (length y))%Z /\ 0 < Wk wt p /\ 0 < Wk wt q.
+
+  Lemma gcv_score_shift de s z : gcv_score OpsR de s wt (shiftl c y) (shiftl c z) = gcv_score OpsR de s wt y z.
+  Proof.
+    unfold gcv_score. f_equal. f_equal. clear.
+    revert y z. induction wt as [|a w' IH]; intros [|b y'] [|d z']; try reflexivity.
+    cbn [shiftl map combine]. cbn [fsub OpsR]. replace (b + c - (d + c)) with (b - d) by ring. f_equal. apply IH.
+  Qed.
+
+  Lemma gcv_scan_shift de lams : (forall s, In s lams -> 0 < s) -> forall sc0 s0 z0,
+    gcv_scan OpsR de wt (shiftl c y) lams (sc0, s0, shiftl c z0) =
+    (let '(sc, s, z) := gcv_scan OpsR de wt y lams (sc0, s0, z0) in (sc, s, shiftl c z)).
+  Proof.
+    induction lams as [|s r IH]; intros Hp sc0 s0 z0; cbn [gcv_scan]; [reflexivity|].
+    assert (0 < s) as Hs by (apply Hp; left; reflexivity).
+    rewrite (ws2d_shift_list y wt c Hl Hn Wn W2 s Hs). rewrite gcv_score_shift. cbn [fst].
+    destruct (fltb OpsR (gcv_score OpsR de s wt y (ws2d OpsR y s wt)) sc0); apply IH; intros; apply Hp; right; assumption.
+  Qed.
+End LiftGcv.
